@@ -264,6 +264,9 @@ func visitInstr(fr *frame, instr ssa.Instruction) continuation {
 		if addr == nil {
 			panic(targetRuntimeError{"invalid memory address or nil pointer dereference"})
 		}
+		if fr.i.path.tm != nil {
+			fr.i.path.logAccess(addr, true, fr)
+		}
 		store(mustDeref(instr.Addr.Type()), addr, fr.get(instr.Val))
 
 	case *ssa.If:
@@ -403,12 +406,20 @@ func visitInstr(fr *frame, instr ssa.Instruction) continuation {
 		}
 
 	case *ssa.Lookup:
+		if fr.i.path.tm != nil {
+			if om, ok := fr.get(instr.X).(*omap); ok && om != nil {
+				fr.i.path.logAccess(om, false, fr)
+			}
+		}
 		fr.env[instr] = lookup(fr.i.path, instr, fr.get(instr.X), fr.get(instr.Index))
 
 	case *ssa.MapUpdate:
 		m := fr.get(instr.Map)
 		key := fr.get(instr.Key)
 		v := fr.get(instr.Value)
+		if fr.i.path.tm != nil {
+			fr.i.path.logAccess(m.(*omap), true, fr)
+		}
 		m.(*omap).insert(fr.i.path, key, v)
 
 	case *ssa.TypeAssert:
